@@ -1,19 +1,717 @@
-"""Verus back end (mechanical extraction of real functions + spliced contracts)."""
+"""Verus back end: mechanical extraction of real functions from /repo/src + spliced contracts.
+
+A unit is a template /verif/verus/<unit>.rs.  Everything in it is specification (spec fns, lemmas, the
+Stream contract trait, type declarations) except the `//@extract` blocks, which the extractor replaces on
+every run by the CURRENT text of the named function from /repo/src, changed only by the rewrite rules
+R1..R10 of DESIGN.md section 3.1 (each application is counted and reported in the evidence).
+
+Directives (line comments in the template):
+
+  //@include <file>                      textual include (shared vocabulary), relative to /verif/verus
+  // @obl props=.. tier=.. fns=..        obligation annotation (as for Kani), precedes an //@extract or a proof fn
+  // @desc ...
+  //@extract file=src/x.rs scope="impl FatTrait for Fat32" fn=find_free as=fat32_find_free [self_prefix=fat32_] [ret=Type] [vis=pub]
+  //@generics <S: Stream<E>, E>          replaces the generic parameter list AND the where clause (R4)
+  //@spec                                 lines up to the next directive: requires/ensures/decreases clauses
+  //@loop N                               lines up to the next directive: invariant/decreases of the N-th loop (0-based, source order)
+  //@entry                                ghost text spliced at function entry (structural position only)
+  //@loop_body_start N / //@loop_body_end N   ghost text at the first/last position of the N-th loop's body
+  //@drop_debug_assert                    R2': debug_assert!s are dropped instead of becoming proof obligations
+  //@endextract
+  //@stub unit=<unit> fn=<as-name>        external_body declaration of a function proved in another unit, with
+                                          exactly the contract text generated there (caller-vs-callee modularity)
+"""
+import json
 import os
+import re
+import subprocess
+import time
+from concurrent.futures import ThreadPoolExecutor
+
 from . import common as C
+
+SEMANTIC = (
+    "postcondition not satisfied", "precondition not satisfied", "invariant not satisfied",
+    "assertion failed", "possible arithmetic underflow/overflow", "possible division by zero",
+    "decreases not satisfied", "loop invariant", "might not be allowed", "possible bit shift underflow/overflow",
+    "index out of bounds", "possible index out of bounds", "recommendation not met", "could not prove termination",
+    "possible", "failed this postcondition", "failed precondition",
+)
+TOOL = ("not supported", "not yet supported", "rlimit", "resource limit", "timed out", "unsupported", "internal error")
+
+
+class ExtractError(Exception):
+    pass
+
+
+def units():
+    out = {}
+    for fn in sorted(os.listdir(C.VERUS_DIR)):
+        if fn.endswith(".rs") and not fn.startswith("inc_"):
+            out[fn[:-3]] = os.path.join(C.VERUS_DIR, fn)
+    return out
 
 
 def prelude_files():
-    return []
+    return [os.path.join(C.VERUS_DIR, f) for f in sorted(os.listdir(C.VERUS_DIR)) if f.startswith("inc_")]
 
 
 def list_obligations():
-    return []
+    obls = []
+    for unit, path in units().items():
+        for o in parse_unit_annotations(path):
+            o["backend"] = "verus"
+            o["unit"] = unit
+            o["module"] = unit
+            o["id"] = "verus:%s::%s" % (unit, o["name"])
+            o["feat"] = ["fa"]
+            obls.append(o)
+    return obls
+
+
+def parse_unit_annotations(path):
+    """`// @obl` blocks; the obligation name is the `as=` of the following //@extract or the following fn name."""
+    obls = []
+    cur = None
+    lines = open(path).read().split("\n")
+    for i, line in enumerate(lines):
+        m = C.ANNOT_RE.match(line)
+        if m and not line.strip().startswith("//@"):
+            key, rest = m.group(1), m.group(2).strip()
+            if key == "obl":
+                cur = {"props": [], "tier": "quick", "bound": "complete", "feat": ["fa"], "fns": [], "desc": "",
+                       "heavy": False, "file": path, "line": i + 1, "twin": None, "timeout": None, "flags": []}
+                for kv in rest.split():
+                    if "=" in kv:
+                        k, v = kv.split("=", 1)
+                        if k in ("props", "fns", "flags"):
+                            cur[k] = [x for x in v.split(",") if x]
+                        else:
+                            cur[k] = v
+            elif key == "desc" and cur is not None:
+                cur["desc"] = (cur["desc"] + " " + rest).strip()
+            elif key == "bound" and cur is not None:
+                cur["bound"] = rest
+            continue
+        if cur is not None:
+            m1 = re.match(r"\s*//@extract\b(.*)", line)
+            if m1:
+                kv = parse_kv(m1.group(1))
+                cur["name"] = kv.get("as", kv.get("fn"))
+                obls.append(cur)
+                cur = None
+                continue
+            m2 = re.match(r"\s*(?:pub\s+)?(?:broadcast\s+)?(?:proof\s+|exec\s+)?fn\s+(\w+)", line)
+            if m2:
+                cur["name"] = m2.group(1)
+                obls.append(cur)
+                cur = None
+    return obls
+
+
+def parse_kv(s):
+    out = {}
+    for m in re.finditer(r'(\w+)=("([^"]*)"|\S+)', s):
+        out[m.group(1)] = m.group(3) if m.group(3) is not None else m.group(2)
+    return out
+
+
+# ---------------------------------------------------------------------------------------------------
+# source scanning (string/comment aware)
+# ---------------------------------------------------------------------------------------------------
+
+def mask_code(text):
+    """Return text of identical length where string/char literals and comments are replaced by spaces
+    (newlines kept), so that brace/paren matching and keyword search are not fooled."""
+    out = list(text)
+    i, n = 0, len(text)
+    while i < n:
+        c = text[i]
+        if text.startswith("//", i):
+            j = text.find("\n", i)
+            j = n if j < 0 else j
+            for k in range(i, j):
+                out[k] = " "
+            i = j
+        elif text.startswith("/*", i):
+            j = text.find("*/", i + 2)
+            j = n if j < 0 else j + 2
+            for k in range(i, j):
+                if out[k] != "\n":
+                    out[k] = " "
+            i = j
+        elif c == '"':
+            j = i + 1
+            while j < n and text[j] != '"':
+                j += 2 if text[j] == "\\" else 1
+            for k in range(i + 1, min(j, n)):
+                if out[k] != "\n":
+                    out[k] = " "
+            i = j + 1
+        elif c == "'":
+            # char literal or lifetime
+            m = re.match(r"'(\\.[^']*|[^'\\])'", text[i:])
+            if m:
+                for k in range(i + 1, i + m.end() - 1):
+                    out[k] = " "
+                i += m.end()
+            else:
+                i += 1
+        else:
+            i += 1
+    return "".join(out)
+
+
+def match_close(masked, i, open_ch="{", close_ch="}"):
+    """index of the bracket closing the one at masked[i]"""
+    depth = 0
+    for k in range(i, len(masked)):
+        if masked[k] == open_ch:
+            depth += 1
+        elif masked[k] == close_ch:
+            depth -= 1
+            if depth == 0:
+                return k
+    raise ExtractError("unbalanced %s at %d" % (open_ch, i))
+
+
+def find_fn(text, scope, name):
+    """Locate `fn name` inside the block introduced by a line starting with `scope` (or at top level if
+    scope is empty).  Returns (sig_start, body_open, body_close) indices into text."""
+    masked = mask_code(text)
+    lo, hi = 0, len(text)
+    if scope:
+        pat = re.compile(r"^[ \t]*" + r"\s+".join(re.escape(w) for w in scope.split()) + r"\b[^\n{;]*", re.M)
+        ms = [m for m in pat.finditer(masked)]
+        # the scope header may continue over several lines (where clauses) before its `{`
+        cands = []
+        for m in ms:
+            b = masked.find("{", m.start())
+            semi = masked.find(";", m.start())
+            if b >= 0 and (semi < 0 or b < semi or True):
+                cands.append((m.start(), b))
+        if len(cands) != 1:
+            raise ExtractError("scope %r found %d times" % (scope, len(cands)))
+        lo = cands[0][1]
+        hi = match_close(masked, lo)
+    # fn at nesting depth 1 of the scope (0 at top level)
+    want_depth = 1 if scope else 0
+    depth = 0
+    hits = []
+    k = lo
+    fn_re = re.compile(r"\bfn\s+" + re.escape(name) + r"\b")
+    while k < hi:
+        ch = masked[k]
+        if ch == "{":
+            depth += 1
+        elif ch == "}":
+            depth -= 1
+        elif ch == "f" and depth == want_depth:
+            m = fn_re.match(masked, k)
+            if m and (k == 0 or not (masked[k - 1].isalnum() or masked[k - 1] == "_")):
+                hits.append(k)
+        k += 1
+    if len(hits) != 1:
+        raise ExtractError("fn %s in scope %r found %d times" % (name, scope, len(hits)))
+    s = hits[0]
+    # body opens at the first `{` at paren/angle depth 0 after the signature
+    pd = 0
+    b = None
+    for k in range(s, hi):
+        ch = masked[k]
+        if ch in "([":
+            pd += 1
+        elif ch in ")]":
+            pd -= 1
+        elif ch == "{" and pd == 0:
+            b = k
+            break
+        elif ch == ";" and pd == 0:
+            raise ExtractError("fn %s has no body" % name)
+    if b is None:
+        raise ExtractError("fn %s: body not found" % name)
+    e = match_close(masked, b)
+    return s, b, e
+
+
+def split_sig(sig):
+    """sig = 'fn name<..>(params) -> Ret where ...' -> (name, generics, params, ret, where)"""
+    masked = mask_code(sig)
+    m = re.match(r"\s*fn\s+(\w+)\s*", masked)
+    name = m.group(1)
+    k = m.end()
+    generics = ""
+    if k < len(masked) and masked[k] == "<":
+        depth = 0
+        j = k
+        while j < len(masked):
+            if masked[j] == "<":
+                depth += 1
+            elif masked[j] == ">" and masked[j - 1] != "-":
+                depth -= 1
+                if depth == 0:
+                    break
+            j += 1
+        generics = sig[k:j + 1]
+        k = j + 1
+    while masked[k].isspace():
+        k += 1
+    if masked[k] != "(":
+        raise ExtractError("cannot parse signature: " + sig)
+    pe = match_close(masked, k, "(", ")")
+    params = sig[k + 1:pe]
+    rest = sig[pe + 1:]
+    mrest = masked[pe + 1:]
+    w = re.search(r"\bwhere\b", mrest)
+    where = ""
+    if w:
+        where = rest[w.end():].strip()
+        rest = rest[:w.start()]
+    ret = ""
+    r = rest.strip()
+    if r.startswith("->"):
+        ret = r[2:].strip()
+    return name, generics, " ".join(params.split()), " ".join(ret.split()), " ".join(where.split())
+
+
+LOG_MACROS = ("trace", "debug", "info", "warn", "error")
+
+
+def apply_rules(body, opts, counts):
+    """body: text between the function's braces. Returns rewritten text; counts[rule] += n."""
+    def bump(r, n=1):
+        counts[r] = counts.get(r, 0) + n
+
+    # R1: log macro statements
+    while True:
+        masked = mask_code(body)
+        m = re.search(r"\b(" + "|".join(LOG_MACROS) + r")!\s*\(", masked)
+        if not m:
+            break
+        op = masked.find("(", m.start())
+        cl = match_close(masked, op, "(", ")")
+        end = cl + 1
+        while end < len(body) and body[end] in " \t":
+            end += 1
+        if end < len(body) and body[end] == ";":
+            end += 1
+        start = m.start()
+        # swallow leading indentation and the trailing newline if the statement stood alone on its lines
+        ls = body.rfind("\n", 0, start) + 1
+        if body[ls:start].strip() == "":
+            start = ls
+            if end < len(body) and body[end] == "\n":
+                end += 1
+        body = body[:start] + body[end:]
+        bump("R1")
+    # R2: debug_assert!
+    while True:
+        masked = mask_code(body)
+        m = re.search(r"\bdebug_assert!\s*\(", masked)
+        if not m:
+            break
+        op = masked.find("(", m.start())
+        cl = match_close(masked, op, "(", ")")
+        inner = body[op + 1:cl]
+        # drop a trailing message argument
+        im = mask_code(inner)
+        depth = 0
+        cut = None
+        for k, ch in enumerate(im):
+            if ch in "([{":
+                depth += 1
+            elif ch in ")]}":
+                depth -= 1
+            elif ch == "," and depth == 0:
+                cut = k
+                break
+        if cut is not None:
+            inner = inner[:cut]
+        if opts.get("drop_debug_assert"):
+            end = cl + 1
+            if end < len(body) and body[end] == ";":
+                end += 1
+            body = body[:m.start()] + body[end:]
+            bump("R2-drop")
+        else:
+            body = body[:m.start()] + "assert(" + inner + ")" + body[cl + 1:]
+            bump("R2")
+    # R3: panic! / unreachable!
+    while True:
+        masked = mask_code(body)
+        m = re.search(r"\b(panic|unreachable)!\s*\(", masked)
+        if not m:
+            break
+        op = masked.find("(", m.start())
+        cl = match_close(masked, op, "(", ")")
+        body = body[:m.start()] + "verif_panic()" + body[cl + 1:]
+        bump("R3")
+    # R5: BorrowMut is the identity for both instantiations used by the crate
+    def r5(m):
+        bump("R5")
+        return m.group(1) if m.group(2) == "." else "&mut " + m.group(1) + m.group(2)
+    body = re.sub(r"(\bself\.\w+)\.borrow_mut\(\)(\.?)", r5, body)
+    # R8: path prefixes
+    n8 = len(re.findall(r"\bio::SeekFrom\b", body))
+    body = re.sub(r"\bio::SeekFrom\b", "SeekFrom", body)
+    n8 += len(re.findall(r"\bio::", body))
+    body = re.sub(r"\bio::", "", body)
+    for ty, pre in (("Fat12", "fat12_"), ("Fat16", "fat16_"), ("Fat32", "fat32_")):
+        n8 += len(re.findall(r"\b%s::(?=\w+\s*\()" % ty, body))
+        body = re.sub(r"\b%s::(?=\w+\s*\()" % ty, pre, body)
+    if opts.get("self_prefix"):
+        n8 += len(re.findall(r"\bSelf::(?=[a-z_]\w*\s*\()", body))
+        body = re.sub(r"\bSelf::(?=[a-z_]\w*\s*\()", opts["self_prefix"], body)
+    if n8:
+        bump("R8", n8)
+    # R9: inclusive-range membership test -> the equivalent pair of comparisons
+    def r9(m):
+        bump("R9")
+        return "(%s <= %s && %s <= %s)" % (m.group(1), m.group(3), m.group(3), m.group(2))
+    body = re.sub(r"\(\s*([\w_]+)\s*\.\.=\s*([\w_]+)\s*\)\s*\.contains\(\s*&\s*(\w+)\s*\)", r9, body)
+    # R11: `x.into()` is std's blanket `From::from(x)` (definitional unfolding; vstd specifies From, not Into)
+    def r11(m):
+        bump("R11")
+        return "core::convert::From::from(%s)" % m.group(1)
+    body = re.sub(r"\b(\w+)\.into\(\)", r11, body)
+    # R10: constructor used as a function value
+    def r10(m):
+        bump("R10")
+        return "match %s { Some(verif_v) => Some(Ok(verif_v)), None => None }" % m.group(1)
+    body = re.sub(r"(\bself\.\w+)\.map\(Ok\)", r10, body)
+    return body
+
+
+def find_loops(body):
+    """Source-order list of (kw_index, header_open_brace_index, close_index) of loops in body."""
+    masked = mask_code(body)
+    loops = []
+    for m in re.finditer(r"\b(while|loop|for)\b", masked):
+        k = m.start()
+        # `for` in `impl .. for ..` cannot occur inside a function body; `for<'a>` neither
+        pd = 0
+        b = None
+        for j in range(m.end(), len(masked)):
+            ch = masked[j]
+            if ch in "([":
+                pd += 1
+            elif ch in ")]":
+                pd -= 1
+            elif ch == "{" and pd == 0:
+                b = j
+                break
+            elif ch == ";" and pd == 0:
+                break
+        if b is None:
+            continue
+        loops.append((k, b, match_close(masked, b)))
+    return loops
+
+
+def splice(body, loop_specs, entry, body_start, body_end):
+    loops = find_loops(body)
+    for n in list(loop_specs) + list(body_start) + list(body_end):
+        if n >= len(loops):
+            raise ExtractError("loop ordinal %d does not exist (function has %d loops)" % (n, len(loops)))
+    inserts = []  # (index, text)
+    for n, txt in loop_specs.items():
+        inserts.append((loops[n][1], "\n" + txt.rstrip() + "\n"))
+    for n, txt in body_start.items():
+        inserts.append((loops[n][1] + 1, "\n" + txt.rstrip() + "\n"))
+    for n, txt in body_end.items():
+        inserts.append((loops[n][2], "\n" + txt.rstrip() + "\n"))
+    for idx, txt in sorted(inserts, key=lambda t: -t[0]):
+        body = body[:idx] + txt + body[idx:]
+    if entry:
+        body = "\n" + entry.rstrip() + "\n" + body
+    return body
+
+
+def generate(unit, cache):
+    """Build the Verus input text of a unit from its template and the current /repo/src.
+    Returns dict(text, fns: {as_name: {sig, spec, start_line, end_line, src_sha, ...}}, rules, errors)."""
+    if unit in cache:
+        return cache[unit]
+    path = units()[unit]
+    raw = open(path).read()
+    # includes
+    def inc(m):
+        return open(os.path.join(C.VERUS_DIR, m.group(1).strip())).read()
+    raw = re.sub(r"^[ \t]*//@include\s+(\S+)[ \t]*$", inc, raw, flags=re.M)
+    lines = raw.split("\n")
+    out = []
+    fns = {}
+    rules = {}
+    errors = []
+    i = 0
+    while i < len(lines):
+        line = lines[i]
+        ms = re.match(r"\s*//@stub\b(.*)", line)
+        if ms:
+            kv = parse_kv(ms.group(1))
+            try:
+                other = generate(kv["unit"], cache)
+                f = other["fns"].get(kv["fn"])
+                if f is None:
+                    raise ExtractError("stub %s not generated in unit %s" % (kv["fn"], kv["unit"]))
+                out.append("#[verifier::external_body]")
+                out.append(f["sig"])
+                out.append(f["spec"].rstrip())
+                out.append("{ unimplemented!() }")
+                fns["stub:" + kv["fn"]] = {"stub_of": "verus:%s::%s" % (kv["unit"], kv["fn"])}
+            except ExtractError as e:
+                errors.append(("stub:" + kv.get("fn", "?"), str(e)))
+            i += 1
+            continue
+        me = re.match(r"\s*//@extract\b(.*)", line)
+        if not me:
+            out.append(line)
+            i += 1
+            continue
+        kv = parse_kv(me.group(1))
+        sect = {"generics": None, "spec": [], "loops": {}, "entry": [], "bstart": {}, "bend": {}}
+        opts = {"self_prefix": kv.get("self_prefix"), "drop_debug_assert": False}
+        cur = None
+        i += 1
+        while i < len(lines) and not re.match(r"\s*//@endextract", lines[i]):
+            l = lines[i]
+            md = re.match(r"\s*//@(\w+)\s*(.*)", l)
+            if md:
+                d, arg = md.group(1), md.group(2).strip()
+                if d == "generics":
+                    sect["generics"] = arg
+                    cur = None
+                elif d == "spec":
+                    cur = sect["spec"]
+                elif d == "loop":
+                    cur = sect["loops"].setdefault(int(arg), [])
+                elif d == "entry":
+                    cur = sect["entry"]
+                elif d == "loop_body_start":
+                    cur = sect["bstart"].setdefault(int(arg), [])
+                elif d == "loop_body_end":
+                    cur = sect["bend"].setdefault(int(arg), [])
+                elif d == "drop_debug_assert":
+                    opts["drop_debug_assert"] = True
+                    cur = None
+                else:
+                    errors.append((kv.get("as", "?"), "unknown directive @" + d))
+            elif cur is not None:
+                cur.append(l)
+            i += 1
+        i += 1  # skip @endextract
+        name = kv.get("as", kv.get("fn"))
+        try:
+            src_path = os.path.join(C.REPO, kv["file"])
+            text = open(src_path).read()
+            s, b, e = find_fn(text, kv.get("scope", ""), kv["fn"])
+            sig = text[s:b]
+            body = text[b + 1:e]
+            fname, generics, params, ret, where = split_sig(sig)
+            cnt = {}
+            if sect["generics"] is not None:
+                generics = sect["generics"]
+                cnt["R4"] = 1
+            elif where:
+                raise ExtractError("where clause present but no //@generics given")
+            if "ret" in kv:
+                ret = kv["ret"]
+                cnt["R6"] = 1
+            params2 = re.sub(r"\bio::", "", params)
+            ret2 = re.sub(r"\bio::", "", ret)
+            body2 = apply_rules(body, opts, cnt)
+            # cfg(feature) inside a contracted function is outside what the unit fixes
+            if re.search(r"#\[cfg", mask_code(body2)):
+                raise ExtractError("cfg attribute inside contracted function (unsupported construct)")
+            body3 = splice(body2,
+                           {n: "\n".join(t) for n, t in sect["loops"].items()},
+                           "\n".join(sect["entry"]),
+                           {n: "\n".join(t) for n, t in sect["bstart"].items()},
+                           {n: "\n".join(t) for n, t in sect["bend"].items()})
+            vis = kv.get("vis", "pub")
+            retn = (" -> (%s: %s)" % (kv.get("retname", "r"), ret2)) if ret2 else ""
+            sig_out = "%s fn %s%s(%s)%s" % (vis, name, generics, params2, retn)
+            spec = "\n".join(sect["spec"])
+            out.append(sig_out)
+            if spec.strip():
+                out.append(spec.rstrip())
+            out.append("{" + body3 + "}")
+            # line accounting: out entries may contain newlines
+            fns[name] = {"sig": sig_out, "spec": spec, "src": kv["file"], "src_fn": (kv.get("scope", "") + " :: " + kv["fn"]).strip(" :"),
+                         "src_sha": C.sha256_text(text[s:e + 1]), "rules": cnt, "orig_lines": text[s:e + 1].count("\n") + 1}
+            for r, n in cnt.items():
+                rules[r] = rules.get(r, 0) + n
+        except (ExtractError, KeyError, OSError) as ex:
+            errors.append((name, "%s: %s" % (type(ex).__name__, ex)))
+            out.append("// EXTRACTION FAILED for %s: %s" % (name, ex))
+    text_out = "\n".join(out)
+    # proof fns / other verified items written directly in the template also get line ranges (for attribution)
+    res = {"text": text_out, "fns": fns, "rules": rules, "errors": errors}
+    cache[unit] = res
+    return res
+
+
+def item_ranges(text):
+    """(name, start_line, end_line) of every `fn` item in the generated text (for error attribution)."""
+    masked = mask_code(text)
+    items = []
+    for m in re.finditer(r"\bfn\s+(\w+)", masked):
+        s = m.start()
+        pd = 0
+        b = None
+        for k in range(m.end(), len(masked)):
+            ch = masked[k]
+            if ch in "([":
+                pd += 1
+            elif ch in ")]":
+                pd -= 1
+            elif ch == "{" and pd == 0:
+                b = k
+                break
+            elif ch == ";" and pd == 0:
+                break
+        if b is None:
+            continue
+        try:
+            e = match_close(masked, b)
+        except ExtractError:
+            continue
+        items.append((m.group(1), text.count("\n", 0, s) + 1, text.count("\n", 0, e) + 1))
+    return items
+
+
+ERR_RE = re.compile(r"^(error|warning)(?:\[[^\]]*\])?: (.*)$")
+LOC_RE = re.compile(r"^\s*--> ([^:]+):(\d+):(\d+)")
+
+
+def run_unit(scratch, unit, gen, log, extra_args=(), suffix=""):
+    d = scratch.path("verus")
+    os.makedirs(d, exist_ok=True)
+    f = os.path.join(d, unit + suffix + ".rs")
+    open(f, "w").write(gen["text"])
+    cmd = ["verus", f, "--output-json", "--time", "--multiple-errors", "50", "--rlimit", "60"] + list(extra_args)
+    t0 = time.time()
+    try:
+        p = subprocess.run(cmd, stdout=subprocess.PIPE, stderr=subprocess.PIPE, text=True, timeout=900, cwd=d)
+        out, err, rc = p.stdout, p.stderr, p.returncode
+    except subprocess.TimeoutExpired:
+        out, err, rc = "", "verus: timed out after 900 s", -9
+    wall = time.time() - t0
+    log.write("\n$ %s\n[rc=%s wall=%.1fs]\n%s\n%s\n" % (" ".join(cmd), rc, wall, err[-60000:], out[-3000:]))
+    data = None
+    try:
+        data = json.loads(out)
+    except Exception:
+        pass
+    # parse diagnostics
+    diags = []
+    cur = None
+    for line in err.split("\n"):
+        m = ERR_RE.match(line)
+        if m:
+            cur = {"level": m.group(1), "msg": m.group(2), "line": None, "notes": []}
+            diags.append(cur)
+            continue
+        m = LOC_RE.match(line)
+        if m and cur is not None and cur["line"] is None and os.path.basename(m.group(1)) == os.path.basename(f):
+            cur["line"] = int(m.group(2))
+    errors = [d_ for d_ in diags if d_["level"] == "error" and not d_["msg"].startswith("aborting due to")]
+    vr = (data or {}).get("verification-results", {})
+    times = (data or {}).get("times-ms", {})
+    return {"file": f, "cmd": " ".join(cmd), "rc": rc, "wall": wall, "errors": errors, "vr": vr, "times": times,
+            "stderr_tail": err[-4000:], "json_ok": data is not None}
+
+
+def classify_msg(msg):
+    low = msg.lower()
+    if any(t in low for t in TOOL):
+        return "tool"
+    if any(t in low for t in SEMANTIC):
+        return "semantic"
+    return "tool"
 
 
 def run(scratch, obls, jobs, log, tier="quick"):
-    return {}, {}
+    """Returns ({(id, 'fa'): result}, meta)"""
+    cache = {}
+    by_unit = {}
+    for o in obls:
+        by_unit.setdefault(o["unit"], []).append(o)
+    results = {}
+    meta = {"cmds": [], "extraction": {"verus_units": {}}}
+
+    def do(unit):
+        try:
+            gen = generate(unit, cache)
+        except Exception as ex:  # template problem
+            return unit, None, None, "extractor error: %s" % ex
+        r = run_unit(scratch, unit, gen, log)
+        return unit, gen, r, None
+
+    # generation is cached and not thread safe: generate first, sequentially
+    for unit in by_unit:
+        try:
+            generate(unit, cache)
+        except Exception:
+            pass
+    with ThreadPoolExecutor(max_workers=max(1, min(jobs, 8))) as ex:
+        outs = list(ex.map(do, list(by_unit)))
+    for unit, gen, r, fatal in outs:
+        uobls = by_unit[unit]
+        if fatal:
+            for o in uobls:
+                results[(o["id"], "fa")] = {"verdict": "undecided", "reason": fatal, "seconds": 0, "obl": o, "feat": "fa"}
+            continue
+        meta["cmds"].append(r["cmd"])
+        items = item_ranges(gen["text"])
+        ext_err = dict(gen["errors"])
+        meta["extraction"]["verus_units"][unit] = {
+            "rewrite_rule_counts": gen["rules"],
+            "functions": {n: {k: v for k, v in f.items() if not k.startswith("_") and k not in ("sig", "spec")}
+                          for n, f in gen["fns"].items()},
+            "extraction_errors": gen["errors"], "verified": r["vr"].get("verified"), "errors": r["vr"].get("errors"),
+            "wall_s": round(r["wall"], 1),
+        }
+        # attribute errors to items
+        per_item = {}
+        unattributed = []
+        for e in r["errors"]:
+            hit = None
+            if e["line"] is not None:
+                for (n, s, t) in items:
+                    if s <= e["line"] <= t:
+                        hit = n
+                        break
+            if hit is None:
+                unattributed.append(e)
+            else:
+                per_item.setdefault(hit, []).append(e)
+        compile_fail = (not r["json_ok"]) or r["vr"].get("encountered-vir-error") or (
+            r["rc"] != 0 and not r["errors"]) or any(classify_msg(e["msg"]) == "tool" for e in unattributed)
+        nfun = max(1, len(uobls))
+        for o in uobls:
+            key = (o["id"], "fa")
+            base = {"obl": o, "feat": "fa", "seconds": r["wall"] / nfun, "raw": {"unit_file": r["file"], "cmd": r["cmd"]}}
+            if o["name"] in ext_err:
+                results[key] = dict(base, verdict="undecided", reason="extraction: " + ext_err[o["name"]])
+                continue
+            errs = per_item.get(o["name"], [])
+            sem = [e for e in errs if classify_msg(e["msg"]) == "semantic"]
+            tool = [e for e in errs if classify_msg(e["msg"]) == "tool"]
+            if sem:
+                results[key] = dict(base, verdict="violation",
+                                    reason="; ".join("%s @ generated line %s" % (e["msg"], e["line"]) for e in sem[:6]))
+                results[key]["raw"]["errors"] = sem
+                results[key]["raw"]["stderr_tail"] = r["stderr_tail"]
+            elif tool or compile_fail:
+                why = "; ".join(e["msg"] for e in (tool or unattributed)[:3]) or ("verus rc=%s" % r["rc"])
+                results[key] = dict(base, verdict="undecided", reason="tool: " + why[:300])
+            else:
+                results[key] = dict(base, verdict="accepted", reason="")
+    return results, meta
 
 
 def twins(scratch, results, all_obls, log, K):
+    """For rejected Verus obligations that name a Kani twin, nothing is run here: the twin is itself an
+    obligation of the same property and produces the replayable input in the same run."""
     return
